@@ -228,13 +228,13 @@ def cat_healsparse_files(file_list, outfile, check_overlap=False, clobber=False,
                 valid_pixels = in_map.valid_pixels
 
             if check_overlap:
-                if np.any(sparse_map[valid_pixels] != sparse_map._sentinel):
+                if np.any(sparse_map.get_values_pix(valid_pixels, valid_mask=True)):
                     if not sparse_map.is_integer_map or not or_overlap:
                         outfits.close()
                         raise RuntimeError("Map %s has pixels that were already set in coverage pixel %d" %
                                            (file_list[index], pix))
                     else:
-                        non_sentinel = sparse_map[valid_pixels] != sparse_map._sentinel
+                        non_sentinel = sparse_map.get_values_pix(valid_pixels, valid_mask=True)
                         # We need to separate between filled and not because if we choose
                         # a non-zero sentinel, the or operation with the sentinel can give
                         # strange results
